@@ -37,8 +37,8 @@ func NewStats() *Stats {
 	return &Stats{Counters: map[string]int64{}, Hashes: map[uint64]struct{}{}, AllHash: NewHash()}
 }
 
-func (s *Stats) Inc(k string)            { s.Counters[k]++ }
-func (s *Stats) Add(k string, n int64)   { s.Counters[k] += n }
+func (s *Stats) Inc(k string)          { s.Counters[k]++ }
+func (s *Stats) Add(k string, n int64) { s.Counters[k] += n }
 func (s *Stats) NoteHash(h Hash, nontrivial bool) {
 	s.AllHash = s.AllHash.Int(int64(h))
 	if nontrivial {
@@ -81,23 +81,23 @@ type ViolationRecord struct {
 }
 
 type WorkerResult struct {
-	Engine     string             `json:"engine"`
-	Property   string             `json:"property"`
-	Seed       uint64             `json:"seed"`
-	Tier       string             `json:"tier"`
-	Worker     int                `json:"worker"`
-	Workers    int                `json:"workers"`
-	Cases      int                `json:"cases"`
-	Runs       int64              `json:"runs"`
-	Violations []ViolationRecord  `json:"violations"`
-	Counters   map[string]int64   `json:"counters"`
-	Hashes     []string           `json:"hashes"`
-	LogHash    string             `json:"log_hash"`
-	Samples    []json.RawMessage  `json:"samples"`
-	SimSteps   int64              `json:"sim_steps"`
-	SimTimeNs  int64              `json:"sim_time_ns"`
-	WallS      float64            `json:"wall_s"`
-	Wedged     bool               `json:"wedged,omitempty"`
+	Engine     string            `json:"engine"`
+	Property   string            `json:"property"`
+	Seed       uint64            `json:"seed"`
+	Tier       string            `json:"tier"`
+	Worker     int               `json:"worker"`
+	Workers    int               `json:"workers"`
+	Cases      int               `json:"cases"`
+	Runs       int64             `json:"runs"`
+	Violations []ViolationRecord `json:"violations"`
+	Counters   map[string]int64  `json:"counters"`
+	Hashes     []string          `json:"hashes"`
+	LogHash    string            `json:"log_hash"`
+	Samples    []json.RawMessage `json:"samples"`
+	SimSteps   int64             `json:"sim_steps"`
+	SimTimeNs  int64             `json:"sim_time_ns"`
+	WallS      float64           `json:"wall_s"`
+	Wedged     bool              `json:"wedged,omitempty"`
 }
 
 func envInt(name string, def int) int {
@@ -123,7 +123,14 @@ var (
 	inflightMu   sync.Mutex
 	inflightEnv  *Envelope
 	inflightFrom time.Time
+	shrinkBest   *Envelope // while shrinking: the best reproduction so far
 )
+
+func setShrinkBest(e *Envelope) {
+	inflightMu.Lock()
+	shrinkBest = e
+	inflightMu.Unlock()
+}
 
 func setInflight(e *Envelope) {
 	inflightMu.Lock()
@@ -214,8 +221,16 @@ func RunWorker(e Engine) int {
 				return
 			case <-t.C:
 				inflightMu.Lock()
-				env, from := inflightEnv, inflightFrom
+				env, from, best := inflightEnv, inflightFrom, shrinkBest
 				inflightMu.Unlock()
+				if env != nil && best != nil && time.Since(from) > caseTimeout {
+					// a shrink candidate wedged: report the un-shrunk violation
+					p := writeReplay(best)
+					res.Violations = append(res.Violations, ViolationRecord{Violation: *best.Expect, Case: best.Case, Replay: p})
+					flush()
+					fmt.Printf("SHRINK-CANDIDATE-WEDGED engine=%s case=%d replay=%s\n", e.Name(), best.Case, p)
+					os.Exit(1)
+				}
 				if env != nil && time.Since(from) > caseTimeout {
 					env.Expect = &Violation{Oracle: "wedged", Detail: fmt.Sprintf("case did not return within %v", caseTimeout)}
 					p := writeReplay(env)
@@ -241,7 +256,9 @@ func RunWorker(e Engine) int {
 		}
 		if v != nil {
 			fmt.Printf("FOUND engine=%s case=%d oracle=%s detail=%s\n", e.Name(), idx, v.Oracle, v.Detail)
+			setShrinkBest(&Envelope{Property: e.Property(), Engine: e.Name(), Seed: seed, Case: idx, Body: marshalBody(c), Expect: v})
 			c2, v2, steps := shrinkCase(e, c, v)
+			setShrinkBest(nil)
 			env2 := &Envelope{Property: e.Property(), Engine: e.Name(), Seed: seed, Case: idx, Body: marshalBody(c2), Expect: v2}
 			p := writeReplay(env2)
 			res.Violations = append(res.Violations, ViolationRecord{Violation: *v2, Case: idx, Replay: p, Shrunk: steps})
@@ -290,6 +307,11 @@ func shrinkCase(e Engine, c any, v *Violation) (any, *Violation, int) {
 			v2 := e.Run(dc, scratch)
 			if v2 != nil && v2.Oracle == v.Oracle {
 				c, v = dc, v2
+				inflightMu.Lock()
+				if shrinkBest != nil {
+					shrinkBest = &Envelope{Property: shrinkBest.Property, Engine: shrinkBest.Engine, Seed: shrinkBest.Seed, Case: shrinkBest.Case, Body: raw, Expect: v2}
+				}
+				inflightMu.Unlock()
 				steps++
 				improved = true
 				break
